@@ -8,13 +8,21 @@ cd "$(dirname "$(realpath "$0")")" || exit 2
 export VERIF_DIR="$PWD"
 export GOFLAGS=-mod=mod GOPROXY=off GOSUMDB=off GOTOOLCHAIN=local CGO_ENABLED=1
 mkdir -p bin work replays evidence
-cp /repo/go.sum sim/go.sum 2>/dev/null
-# VERIF_REPO (debugging aid, e.g. background runs against a snapshot): build against another copy of plenc
-modflag=""
-if [ -n "${VERIF_REPO:-}" ]; then
-  sed "s|=> /repo\$|=> $VERIF_REPO|" sim/go.mod > sim/go.alt.$$.mod; cp sim/go.sum sim/go.alt.$$.sum
-  modflag="-modfile=go.alt.$$.mod"
-fi
+cp "${VERIF_REPO:-/repo}"/go.sum sim/go.sum 2>/dev/null
+# The simulator is built against a scratch copy of plenc's working tree (VERIF_REPO: another
+# copy than /repo, e.g. a background run's snapshot) in which cmd/autoyield has put a yield
+# point before every synchronisation operation (sync/atomic, sync.Mutex, sync.Map, sync.Pool...),
+# in addition to the hand-placed verifYield sites. The copy is removed after the build.
+src="${VERIF_REPO:-/repo}"
+scratch="$(mktemp -d /tmp/verif-plenc-XXXXXX)" || exit 2
+trap 'rm -rf "$scratch" "$VERIF_DIR/bin/autoyield-$$" "$VERIF_DIR"/sim/go.alt.$$.mod "$VERIF_DIR"/sim/go.alt.$$.sum' EXIT
+rsync -a --exclude .git "$src"/ "$scratch"/ || { echo "cannot copy $src" >&2; exit 2; }
+( cd sim && go build -o "$VERIF_DIR/bin/autoyield-$$" ./cmd/autoyield ) 2>work/build.$$.log || { echo "BUILD FAILED (autoyield):" >&2; cat work/build.$$.log >&2; rm -f work/build.$$.log; exit 2; }
+"$VERIF_DIR/bin/autoyield-$$" "$scratch" >work/autoyield.$$.log 2>&1 || { echo "autoyield failed (harness trouble, not a violation):" >&2; cat work/autoyield.$$.log >&2; rm -f work/autoyield.$$.log; exit 2; }
+rm -f work/autoyield.$$.log
+export VERIF_PLENC_SRC="$scratch"
+sed "s|=> /repo\$|=> $scratch|" sim/go.mod > sim/go.alt.$$.mod; cp sim/go.sum sim/go.alt.$$.sum
+modflag="-modfile=go.alt.$$.mod"
 build() { # build <output> <extra flags...>
   local out="$1"; shift
   ( cd sim && go build $modflag -tags verif "$@" -o "$out.tmp.$$" ./cmd/sim ) 2>work/build.$$.log || {
@@ -29,7 +37,8 @@ export VERIF_RACE_BIN=""
 case "$prop" in
   C07|C19|C10|C11) build "$bin-race" -race; export VERIF_RACE_BIN="$bin-race" ;;
 esac
+rm -rf "$scratch" "$VERIF_DIR/bin/autoyield-$$" sim/go.alt.$$.mod sim/go.alt.$$.sum
 "$bin" run "$prop" "$tier"
 rc=$?
-rm -f "$bin" "$bin-race" sim/go.alt.$$.mod sim/go.alt.$$.sum
+rm -f "$bin" "$bin-race"
 exit $rc
